@@ -73,6 +73,11 @@ class Mon(Driver):
                 world.cs.change_count
                 world.cs.busy
                 world.cs.smgr.change_count(unverified=True)
+                cc = world.cs.change_count
+                if callable(cc):            # (CloudSync.change_count hands out the manager's method)
+                    cc()
+                world.cs.smgr.change_count(0)
+                world.cs.smgr.change_count(1)
             except ex.CloudException:
                 pass
             finally:
